@@ -27,10 +27,10 @@ import (
 	"verif/harness/lib"
 )
 
-func fatal(f string, a ...interface{}) {
-	fmt.Fprintf(os.Stderr, "c12: "+f+"\n", a...)
-	os.Exit(3)
-}
+type fatalErr string
+
+// fatal aborts the current execution of a history (robust() re-executes it) or, outside one, the driver.
+func fatal(f string, a ...interface{}) { panic(fatalErr(fmt.Sprintf(f, a...))) }
 
 const initialMutID = 1000000000
 
@@ -48,6 +48,70 @@ type ev struct {
 type jcase struct {
 	Kind string `json:"kind"` // mutid | labels | race | ids
 	Evs  []ev   `json:"evs"`
+	// set when executions of this history disagreed: the Coq term of the first execution
+	FirstOutcome string `json:"first_outcome,omitempty"`
+}
+
+// outcome of one execution of a history on a fresh directory
+type outcome struct {
+	kind, term, key string
+	counts          map[string]int
+}
+
+// robust: histories with process kills are executed twice on fresh directories.  Identifiers are a
+// deterministic function of the history, so two executions agree unless the storage engine lost a
+// write that it had acknowledged just before a kill (harness/cmd/killcycle); then a third execution
+// decides (2 of 3), and a history is reported as first observed only if it is reproduced.
+func robust(run *lib.Run, c jcase, f func(jcase) outcome) {
+	try := func() (o outcome, ok bool) {
+		defer func() {
+			if e := recover(); e != nil {
+				if fe, isFatal := e.(fatalErr); isFatal {
+					run.Dist["aborted-executions"]++
+					run.Notes = append(run.Notes, "execution aborted: "+string(fe))
+					ok = false
+					return
+				}
+				panic(e)
+			}
+		}()
+		return f(c), true
+	}
+	var outs []outcome
+	var pick *outcome
+	for attempt := 0; attempt < 6 && pick == nil; attempt++ {
+		o, ok := try()
+		if !ok {
+			continue
+		}
+		for i := range outs {
+			if outs[i].term == o.term {
+				pick = &outs[i]
+			}
+		}
+		outs = append(outs, o)
+	}
+	if len(outs) == 0 {
+		fmt.Fprintln(os.Stderr, "c12: no execution of a history completed")
+		os.Exit(3)
+	}
+	if pick == nil {
+		run.Dist["nondeterministic-histories"]++
+		pick = &outs[0]
+	}
+	if len(outs) > 2 || run.Dist["aborted-executions"] > 0 && len(outs) >= 2 && outs[0].term != pick.term {
+		run.Dist["retries"] += len(outs) - 2
+	}
+	if outs[0].term != pick.term {
+		run.Dist["flaky_crash_points"]++
+		c.FirstOutcome = outs[0].term
+	} else if len(outs) > 2 {
+		run.Dist["flaky_crash_points"]++
+	}
+	for k, v := range pick.counts {
+		run.Dist[k] += v
+	}
+	run.Add(pick.kind, pick.term, c, pick.key)
 }
 
 func freshDir() string {
@@ -90,7 +154,8 @@ func rootOf(p *dvh.Proc) string {
 
 // ---------- mutation ids ----------
 // events: alloc (N times) | crash | alloccrash(after) | restart(start) | restartcrash(start, after)
-func runMutid(run *lib.Run, c jcase) {
+func runMutid(c jcase) outcome {
+	counts := map[string]int{}
 	dir := freshDir()
 	defer os.RemoveAll(dir)
 	p := mustStart(dvh.Opts{Dir: dir})
@@ -164,8 +229,8 @@ func runMutid(run *lib.Run, c jcase) {
 	if up {
 		p.Quit()
 	}
-	run.Dist["mutid-issued"] += len(ids)
-	run.Add("mutid", fmt.Sprintf("(CMut [%s] %s)", strings.Join(mev, "; "), lib.CoqNList(ids)), c, fmt.Sprintf("mutid/%d/%d", len(mev), len(ids)))
+	counts["mutid-issued"] += len(ids)
+	return outcome{"mutid", fmt.Sprintf("(CMut [%s] %s)", strings.Join(mev, "; "), lib.CoqNList(ids)), fmt.Sprintf("mutid/%d/%d", len(mev), len(ids)), counts}
 }
 
 // kill: SIGKILL while idle.  The child is given a moment after its last answer: badger was seen to
@@ -225,7 +290,8 @@ func peekNext(p *dvh.Proc, root string) uint64 {
 //	| lmmerge(Ls = target, merged...) | cleave(Ls = body, supervoxels...)
 //
 // All label requests go to the CURRENT version (the newest node of a linear chain).
-func runLabels(run *lib.Run, c jcase) {
+func runLabels(c jcase) outcome {
+	counts := map[string]int{}
 	dir := freshDir()
 	defer os.RemoveAll(dir)
 	p := mustStart(dvh.Opts{Dir: dir})
@@ -367,9 +433,9 @@ func runLabels(run *lib.Run, c jcase) {
 	if up {
 		p.Quit()
 	}
-	run.Dist["label-ranges"] += len(obs)
-	run.Dist["label-versions"] += curV
-	run.Add("labels", fmt.Sprintf("(CLab [%s] [%s])", strings.Join(lev, "; "), strings.Join(obs, "; ")), c, fmt.Sprintf("labels/%d/%d", len(lev), len(obs)))
+	counts["label-ranges"] += len(obs)
+	counts["label-versions"] += curV
+	return outcome{"labels", fmt.Sprintf("(CLab [%s] [%s])", strings.Join(lev, "; "), strings.Join(obs, "; ")), fmt.Sprintf("labels/%d/%d", len(lev), len(obs)), counts}
 }
 
 // race probe: ingest N solid blocks whose labels exceed everything so far, ask for a label at once
@@ -409,7 +475,8 @@ func runRace(run *lib.Run, c jcase) {
 // events: newrepo | newdata | newversion (commit + child of the newest node) | crash | restart |
 //
 //	killat(W) = the next id-allocating request dies after W of its metadata writes
-func runIDs(run *lib.Run, c jcase) {
+func runIDs(c jcase) outcome {
+	counts := map[string]int{}
 	dir := freshDir()
 	defer os.RemoveAll(dir)
 	p := mustStart(dvh.Opts{Dir: dir})
@@ -551,9 +618,9 @@ func runIDs(run *lib.Run, c jcase) {
 	if up {
 		p.Quit()
 	}
-	run.Dist["version-ids"] += len(vids)
-	run.Dist["instance-ids"] += len(iids)
-	run.Add("ids", fmt.Sprintf("(CIds %s %s)", lib.CoqNList(vids), lib.CoqNList(iids)), c, "ids/"+strings.Join(trace, ","))
+	counts["version-ids"] += len(vids)
+	counts["instance-ids"] += len(iids)
+	return outcome{"ids", fmt.Sprintf("(CIds %s %s)", lib.CoqNList(vids), lib.CoqNList(iids)), "ids/" + strings.Join(trace, ","), counts}
 }
 
 func genMutid(rng *lib.Rand) jcase {
@@ -673,6 +740,12 @@ func genIDs(rng *lib.Rand) jcase {
 
 func main() {
 	dvh.MaybeChild()
+	defer func() {
+		if e := recover(); e != nil {
+			fmt.Fprintf(os.Stderr, "c12: %v\n", e)
+			os.Exit(3)
+		}
+	}()
 	o := lib.ParseOpts()
 	dvid.SetLogMode(dvid.CriticalMode)
 	log.SetOutput(io.Discard)
@@ -682,13 +755,13 @@ func main() {
 	dispatch := func(c jcase) {
 		switch c.Kind {
 		case "mutid":
-			runMutid(run, c)
+			robust(run, c, runMutid)
 		case "labels":
-			runLabels(run, c)
+			robust(run, c, runLabels)
 		case "race":
 			runRace(run, c)
 		case "ids":
-			runIDs(run, c)
+			robust(run, c, runIDs)
 		default:
 			fatal("unknown case kind %q", c.Kind)
 		}
